@@ -91,7 +91,7 @@ contract(FB, "NFlow.forward_and_log_prob", props=["C08"],
                   "forall(i, 0, len(x), result[0][i] == Tf(x[i]) and "
                   "result[1][i] == " + DENS.format(x="x[i]") + ")"])
 contract(FB, "NFlow.sample_and_log_prob", props=["C08"],
-         params={"N": "Int", "context": "Any"}, requires=["N >= 0"],
+         params={"N": "Int", "context": "Any"}, requires=["N >= 1"],
          returns=f"Tuple({XT},Seq(Real))",
          ensures=["len(result[0]) == N and len(result[1]) == N",
                   # the log-density reported with a sample equals the
@@ -100,7 +100,7 @@ contract(FB, "NFlow.sample_and_log_prob", props=["C08"],
                   + DENS.format(x="result[0][i]") + ")"])
 contract(FB, "NFlow.sample", props=["C08"],
          params={"num_samples": "Int", "context": "Any"},
-         requires=["num_samples >= 0"], returns=XT,
+         requires=["num_samples >= 1"], returns=XT,
          ensures=["len(result) == num_samples"])
 
 # ---- FlowModel: the numpy-level wrappers -----------------------------------
@@ -143,7 +143,7 @@ contract(
     FM, "FlowModel.sample_and_log_prob", props=["C08"],
     params={"N": "Int", "z": f"Opt({ZT})", "alt_dist": "Opt(Obj(AltDistAbs))",
             "conditional": "None"},
-    requires=["N >= 0"],
+    requires=["N >= 1"],
     modifies=["self.model.training"], returns=f"Tuple({XT},Seq(Real))",
     ensures=[
         "not self.model.training",
@@ -164,3 +164,118 @@ contract(
         "forall(i, 0, len(old(z)), "
         "result[1][i] == AltB(old(z)[i]) - Di(old(z)[i])))"],
 )
+
+# ---- proposal layer: FlowProposal.forward_pass / backward_pass --------------
+PF = "nessai/proposal/flowproposal.py"
+LPF = "nessai/livepoint.py"
+PT = "Seq(Sort(P))"
+shape("ModelBounds", {}, methods={
+    "in_bounds": Contract(
+        "<abstract>", "ModelBounds.in_bounds", params={"x": PT},
+        trusted=True, trusted_reason="Model.in_bounds: the abstract "
+        "predicate InBounds per point (its definition is C09's concern)",
+        returns="Seq(Bool)",
+        ensures=["len(result) == len(x)",
+                 "forall(i, 0, len(x), result[i] == InBounds(x[i]))"]),
+})
+shape("FlowProposalDens", {
+    "flow": "Obj(FlowModel)", "alt_dist": "Opt(Obj(AltDistAbs))",
+    "prime_parameters": "Any", "model": "Obj(ModelBounds)",
+}, cls="FlowProposal", methods={
+    "rescale": Contract(
+        "<abstract>", "FlowProposal.rescale",
+        params={"x": PT, "compute_radius": "Bool"}, trusted=True,
+        trusted_reason="the configured reparameterisation as an abstract "
+        "map Rf with log-Jacobian RJ (elementary maps: C07; combination and "
+        "structured-array plumbing not verified)",
+        returns=f"Tuple({XT},Seq(Real))",
+        ensures=["len(result[0]) == len(x) and len(result[1]) == len(x)",
+                 "forall(i, 0, len(x), result[0][i] == Rf(x[i]) and "
+                 "result[1][i] == RJ(x[i]))"]),
+    "inverse_rescale": Contract(
+        "<abstract>", "FlowProposal.inverse_rescale",
+        params={"x_prime": XT}, trusted=True,
+        trusted_reason="the configured reparameterisation as an abstract "
+        "map Ri with log-Jacobian RiJ (see rescale)",
+        returns=f"Tuple({PT},Seq(Real))",
+        ensures=["len(result[0]) == len(x_prime) and "
+                 "len(result[1]) == len(x_prime)",
+                 "forall(i, 0, len(x_prime), result[0][i] == Ri(x_prime[i]) "
+                 "and result[1][i] == RiJ(x_prime[i]))"]),
+})
+contract(LPF, "live_points_to_array", variant_name="abstract-points",
+         props=["C08"], trusted=True, verify=False,
+         trusted_reason="structured <-> unstructured conversion keeps each "
+         "point (rows as abstract points; field-level behaviour is C18's)",
+         params={"live_points": XT, "names": "Any", "copy": "Bool"},
+         returns=XT,
+         ensures=["len(result) == len(live_points)",
+                  "forall(i, 0, len(live_points), "
+                  "result[i] == live_points[i])"])
+contract(LPF, "numpy_array_to_live_points", variant_name="abstract-points",
+         props=["C08"], trusted=True, verify=False,
+         trusted_reason="see live_points_to_array",
+         params={"array": XT, "names": "Any"}, returns=XT,
+         ensures=["len(result) == len(array)",
+                  "forall(i, 0, len(array), result[i] == array[i])"])
+
+# density of a physical point under the proposal: flow density of its image
+# times the Jacobian of the reparameterisation
+PDENS = "Bz(Tf(Rf({p}))) + Dj(Rf({p})) + RJ({p})"
+contract(
+    PF, "FlowProposal.forward_pass", props=["C08"],
+    self_shape="FlowProposalDens",
+    params={"x": PT, "rescale": ("const", True), "compute_radius": "Bool"},
+    modifies=["self.flow.model.training"],
+    returns=f"Tuple({ZT},Seq(Real))",
+    ensures=["len(result[0]) == len(x) and len(result[1]) == len(x)",
+             "forall(i, 0, len(x), result[0][i] == Tf(Rf(x[i])) and "
+             "result[1][i] == " + PDENS.format(p="x[i]") + ")"],
+)
+BP_COMMON = [
+    "len(result[0]) == len(result[1])",
+    # every returned point is the image of a supplied latent point ...
+    # and the density attached to it is the density forward_pass computes
+    # for the same point (flow density x reparameterisation Jacobian)
+    "implies(self.alt_dist is None, forall(j, 0, len(result[0]), "
+    "result[1][j] == " + PDENS.format(p="result[0][j]") + "))",
+    # points outside the prior bounds are never returned
+    "forall(j, 0, len(result[0]), InBounds(result[0][j]))",
+]
+contract(
+    PF, "FlowProposal.backward_pass", props=["C08", "C09"],
+    self_shape="FlowProposalDens",
+    params={"z": ZT, "rescale": ("const", True),
+            "discard_nans": ("const", True), "return_z": ("const", True)},
+    modifies=["self.flow.model.training"],
+    returns=f"Tuple({PT},Seq(Real),{ZT})",
+    ensures=BP_COMMON + [
+        # the returned latent points stay aligned with the returned samples
+        "len(result[2]) == len(result[0])",
+        "forall(j, 0, len(result[0]), result[0][j] == Ri(Ti(result[2][j])))",
+        "implies(self.alt_dist is not None, forall(j, 0, len(result[0]), "
+        "result[1][j] == AltB(result[2][j]) - Di(result[2][j]) - "
+        "RiJ(Ti(result[2][j]))))",
+    ],
+)
+contract(
+    PF, "FlowProposal.backward_pass", variant_name="no-z", props=["C08"],
+    self_shape="FlowProposalDens",
+    params={"z": ZT, "rescale": ("const", True),
+            "discard_nans": "Bool", "return_z": ("const", False)},
+    modifies=["self.flow.model.training"],
+    returns=f"Tuple({PT},Seq(Real))",
+    ensures=BP_COMMON,
+)
+contract(PF, "FlowProposal.check_prior_bounds", props=["C08", "C09"],
+         inline=True, verify=False, params={"x": PT},
+         notes="inlined at its call sites (one boolean mask applied to "
+         "every array passed)")
+
+# failed obligations of this family are replayed on a concrete instance of the
+# abstract flow built from the package's own classes (replay/c08_flow.py)
+from pyvc.contracts import CONTRACTS as _ALL
+for _c in _ALL.values():
+    if "C08" in _c.props and _c.verify and _c.replay is None and \
+            _c.file in (FB, FM, PF):
+        _c.replay = {"module": "replay.c08_flow", "func": "flow_replay"}
